@@ -44,6 +44,13 @@ def run(repo, chk, tier):
     cg_matrix(repo, chk)
     barrier(repo, chk)
     decay_amplitudes(repo, chk)
+    # theta_k of the closed form is the helicity angle after chained boosts; q0 / p0 of the barrier factors follow the
+    # current resonance mass: frame typing of the chain boosts and soundness of memoisation
+    from ..cacheown import check_memo_soundness
+    from .c11_helicity import check_frame_typing
+
+    check_frame_typing(repo, chk)
+    check_memo_soundness(repo, chk)
     # angular and line-shape conventions: the obligations are those of C12 / C15, evaluated here for the spins the
     # closed form quantifies over (J, L = 0..4)
     from .c12_wigner import check_gather, check_wigner
